@@ -59,6 +59,17 @@ func runC12(ctx *Ctx, idx int) Result {
 		hc.Mix.Delete += 10
 		hc.Mix.SetCollExisting += 6
 	}
+	if idx%4 == 1 {
+		// SetCollection on another existing name from inside BeforeItemWrite, i.e. while a Flush has that
+		// collection's version pinned and has not written it yet
+		cfg.CB |= driver.CBReplaceOther
+		cfg.MemOnly = false
+		if hc.NColls < 2 {
+			hc.NColls = 2
+		}
+		hc.Mix.Flush += 6
+		ctx.Stats["c12.replace-during-flush-cases"]++
+	}
 	h := NewHist(r, cfg, hc, fmt.Sprintf("c12-%d", idx))
 	removed := map[string]bool{}
 	for i := 0; i < hc.Steps && !h.E.Failed(); i++ {
